@@ -324,6 +324,16 @@ def np_logical_not(eng, args, kw):
     return b_not(eng.truth(x))
 
 
+def sp_jv(eng, args, kw):
+    order, x = args
+    x = to_cx(x)
+    AXIOMS_USED.add('scipy.special.jv(n, z): uninterpreted function of (n, z)')
+    fre = eng.uf('jv.re', z3.IntSort(), z3.RealSort(), z3.RealSort(), z3.RealSort())
+    fim = eng.uf('jv.im', z3.IntSort(), z3.RealSort(), z3.RealSort(), z3.RealSort())
+    a = [term(order), term(x.re, True), term(x.im, True)]
+    return CX(SV(fre(*a), 'real'), SV(fim(*a), 'real'))
+
+
 NP_LINALG = Namespace('np.linalg', {'norm': Builtin('np.linalg.norm', np_norm)})
 
 NP = Namespace('np', {
@@ -669,6 +679,7 @@ GLOBALS = {
     'reversed': Builtin('reversed', b_reversed), 'any': Builtin('any', b_any),
     'all': Builtin('all', b_all), 'pairwise': Builtin('pairwise', b_pairwise),
     'super': Builtin('super', None),
+    'jv': Builtin('jv', sp_jv),
     'True': True, 'False': False, 'None': None,
     'sys': Namespace('sys', {'stderr': AStr([('lit', '<stderr>')])}),
 }
@@ -1059,6 +1070,18 @@ def setitem(eng, base, idx, v):
         eng.note_write(('list', base))
         return
     if isinstance(base, NDArr):
+        if isinstance(idx, slice):
+            lo, hi, st = idx.indices(len(base.data))
+            vals = to_nd(eng, v)
+            pos = list(range(lo, hi, st))
+            if not isinstance(vals, list):
+                vals = [vals] * len(pos)
+            if len(vals) != len(pos):
+                raise PyRaise('ValueError', ('could not broadcast input array',))
+            for k, x in zip(pos, vals):
+                base.data[k] = x
+            eng.note_write(('nd', base))
+            return
         if isinstance(idx, tuple):
             if idx and idx[0] is Ellipsis and len(idx) == 2:
                 _set_last(eng, base.data, idx[1], v)
